@@ -448,8 +448,8 @@ impl Prop for Statics {
 
     fn n_cases(&self, tier: Tier) -> u32 {
         match self.which {
-            Which::C01 => tier.pick(6_000, 150_000),
-            _ => tier.pick(1_600, 40_000),
+            Which::C01 => tier.pick(80_000, 2_000_000),
+            _ => tier.pick(16_000, 400_000),
         }
     }
 
